@@ -9,8 +9,7 @@
    parameter replaced by the argument inside the type's bound expressions.
 
    Members are named by numbers; parameters occurring inside bounds are symbols (numbers), as in the code, where substitution
-   compares symbols, not names.  The mapping is the list of pairs in the order the code applies them (see DESIGN 9.2/C07 for the
-   assumption behind that order). *)
+   compares symbols, not names.  The mapping is the list of pairs in the order one pass of the code applies them, which is arbitrary (address order). *)
 From Coq Require Import List Arith Bool ZArith Lia.
 From Utap Require Import Scope.
 Import ListNotations.
@@ -49,7 +48,11 @@ Fixpoint find_index {A} (x : name) (fr : list (name * A)) : option nat :=
   | [] => None
   | (n, _) :: r => if Nat.eqb n x then Some 0 else option_map S (find_index x r)
   end.
+Fixpoint iter {A} (n : nat) (f : A -> A) (x : A) : A := match n with O => x | S k => f (iter k f x) end.
 Definition subst_all (m : list (sym * bexp)) (t : ty) : ty := fold_left (fun t se => tsubst (fst se) (snd se) t) m t.
+(* expr_dot: one pass over the mapping per entry.  The mapping is a std::map keyed by symbol address, so the order of a pass is
+   not under the library's control; p_map is that order, whatever it is *)
+Definition subst_rounds (m : list (sym * bexp)) (t : ty) : ty := iter (length m) (subst_all m) t.
 Definition is_loc (t : ty) : bool := match t with TLoc => true | _ => false end.
 Definition dot (p : proc) (x : name) : option (nat * ty) :=
   match find_index x (p_frame p) with
@@ -57,7 +60,7 @@ Definition dot (p : proc) (x : name) : option (nat * ty) :=
   | Some i =>
     match nth_error (p_frame p) i with
     | None => None
-    | Some (_, t) => Some (i, if is_loc t then TBool else subst_all (p_map p) (trename (p_templ p) (p_id p) t))
+    | Some (_, t) => Some (i, if is_loc t then TBool else subst_rounds (p_map p) (trename (p_templ p) (p_id p) t))
     end
   end.
 
@@ -80,11 +83,14 @@ Fixpoint fv (b : bexp) : list sym :=
   match b with BLit _ => [] | BVar s => [s] | BOp _ args => flat_map fv args end.
 Definition bounds_of (t : ty) : list bexp :=
   match t with TRange lo hi => [lo; hi] | TConstRange lo hi => [lo; hi] | TScalar _ n => [n] | _ => [] end.
-(* every argument mentions only parameters bound later in the list (those of the instantiations wrapped around it) *)
-Fixpoint triangular (m : list (sym * bexp)) : Prop :=
-  match m with [] => True | (x, e) :: rest => (forall y, In y (fv e) -> In y (map fst rest)) /\ ~ In x (map fst rest) /\ triangular rest end.
+(* an instantiation chain, innermost template first: the parameters are distinct and no argument mentions its own parameter or
+   one of a level below it (it may mention parameters of the levels wrapped around it, and anything that is not a parameter) *)
+Fixpoint tri (seen : list sym) (m : list (sym * bexp)) : Prop :=
+  match m with [] => True | (x, e) :: rest => ~ In x seen /\ (forall y, In y (fv e) -> y <> x /\ ~ In y seen) /\ tri (x :: seen) rest end.
+Definition triangular (m : list (sym * bexp)) : Prop := tri [] m.
 
 Definition bsubst_all (m : list (sym * bexp)) (b : bexp) : bexp := fold_left (fun b se => bsubst (fst se) (snd se) b) m b.
+Definition bsubst_rounds (m : list (sym * bexp)) (b : bexp) : bexp := iter (length m) (bsubst_all m) b.
 (* the member a qualified name selects, as a symbol of the template's frame *)
 Definition first_member {A} (fr : list (name * A)) (x : name) : option A :=
   match find_index x fr with Some i => option_map snd (nth_error fr i) | None => None end.
